@@ -73,6 +73,13 @@ def run(case: dict, lean: Lean) -> Outcome:
             for b in iid:
                 if counts[a] < counts[b] and not s[a] < s[b]: failed.append(f"pop[{variant}] not monotone: count {counts[a]}<{counts[b]} but {s[a]}>={s[b]}")
         if variant == "count" and any(s[i] != counts[i] for i in iid): failed.append("pop[count] ≠ count")
+        # the three variants against their model (tie order of the ascending sort taken from pandas' own sort of the same counts)
+        items_v = [int(x) for x in ds.items.ids()]; cl = [counts[i] for i in items_v]
+        order = [int(x) for x in pd.Series(cl).sort_values().index]
+        mp = lean.call("c08.pop", {"counts": cl, "order": order})
+        for k_, i in enumerate(items_v):
+            want = float(Fraction(mp[variant][k_])) if isinstance(mp[variant][k_], str) else float(mp[variant][k_])
+            if not _close(float(s[i]), want, 1e-6): failed.append(f"pop[{variant}] of item {i} = {s[i]}, definition {want}"); corr = False
     # (5) time-bounded popularity counts only interactions after the cutoff, whatever the timestamp type
     key = None
     cut = case["cutoff"]
@@ -114,6 +121,6 @@ SPEC = CheckSpec(
     theorems=["LK.Bias.C08_Bias_itemBiases_eq_def", "LK.Bias.C08_Bias_avgRank_strict_mono", "LK.Bias.C08_Bias_count_strict_mono",
               "LK.Bias.C08_Bias2_userBiases_eq_def", "LK.Bias.C08_Bias2_no_ratings_zero", "LK.Bias.C08_Bias2_historyBias_eq_def",
               "LK.Bias.C08_Bias2_score_known", "LK.Bias.C08_Bias2_score_unknown_item"],
-    correspondence_ops=["c08.bias"],
+    correspondence_ops=["c08.bias", "c08.pop"],
     nontrivial_rule="distinct (ratings, dampings, history, cutoff) reaching ≥1 of: zero / per-entity damping, single-rating item, constant ratings, history (with unknown item), date-time timestamps, tied counts",
     budgets={"quick": 200, "thorough": 5000}, gen=gen, run=run, shrink=shrink)
